@@ -227,8 +227,10 @@ func runC06_1(c *core.Ctx) {
 		const fShut = 1
 		p := &flow.Problem{Must: true}
 		p.Edge = func(e *flow.Edge, in uint64) uint64 {
-			if e.Tag != nil && e.Sense && flow.ObjOf(hf.Info, e.Cond) == types.Object(shutdownAction) {
-				in |= fShut
+			if l, r, eq, ok := flow.Equality(e); ok && eq {
+				if flow.ObjOf(hf.Info, r) == types.Object(shutdownAction) || flow.ObjOf(hf.Info, l) == types.Object(shutdownAction) {
+					in |= fShut
+				}
 			}
 			return in
 		}
@@ -296,7 +298,7 @@ func runC06_3(c *core.Ctx) {
 		}
 		isExitIterate := func(call *ast.CallExpr) bool {
 			cf := flow.CalleeFunc(f.Info, call)
-			if cf == nil || cf.Name() != "iterate" || len(call.Args) != 1 {
+			if cf == nil || nameOf(cf) != "iterate" || len(call.Args) != 1 {
 				return false
 			}
 			fl, ok := ast.Unparen(call.Args[0]).(*ast.FuncLit)
@@ -336,7 +338,7 @@ func runC06_3(c *core.Ctx) {
 				case *ast.UnaryExpr:
 					if y.Op == token.ARROW {
 						if call, ok := ast.Unparen(y.X).(*ast.CallExpr); ok {
-							if cf := flow.CalleeFunc(f.Info, call); cf != nil && cf.Name() == "Done" {
+							if cf := flow.CalleeFunc(f.Info, call); cf != nil && nameOf(cf) == "Done" {
 								add(ev{fSignal, 0, "wait for the shutdown signal"}, y.Pos())
 							}
 						}
@@ -354,7 +356,7 @@ func runC06_3(c *core.Ctx) {
 						if tl, ok := ast.Unparen(y.Args[1]).(*ast.FuncLit); ok && litReturnsOnly(f, tl, shut) {
 							add(ev{fIngress, fSignal | fOnShutdown, "exit task to the main reactor"}, y.Pos())
 						}
-					case cf != nil && cf.Name() == "Wait" && cf.Pkg() != nil && strings.HasSuffix(cf.Pkg().Path(), "errgroup"):
+					case cf != nil && nameOf(cf) == "Wait" && cf.Pkg() != nil && strings.HasSuffix(cf.Pkg().Path(), "errgroup"):
 						need := uint64(fSignal | fOnShutdown | fExitTasks)
 						if name == "engine.stop" {
 							need |= fIngress // the main reactor (if any) must have been told to exit, or Wait never returns
@@ -362,7 +364,7 @@ func runC06_3(c *core.Ctx) {
 						add(ev{fWaited, need, "concurrency.Wait()"}, y.Pos())
 					case flow.IsCall(f.Info, y, cel):
 						add(ev{fClosed, fSignal | fOnShutdown | fExitTasks | fWaited, "closeEventLoops()"}, y.Pos())
-					case cf != nil && cf.Name() == "Store" && flow.Recv(y) != nil && flow.FieldOf(f.Info, flow.Recv(y)) == inShutdown:
+					case cf != nil && nameOf(cf) == "Store" && flow.Recv(y) != nil && flow.FieldOf(f.Info, flow.Recv(y)) == inShutdown:
 						add(ev{fStored, fSignal | fOnShutdown | fExitTasks | fWaited | fClosed, "inShutdown.Store(true)"}, y.Pos())
 					}
 				}
@@ -409,7 +411,7 @@ func runC06_3(c *core.Ctx) {
 	// inShutdown stored only there
 	s := c.P.BuildSSA()
 	for _, fa := range s.Accesses() {
-		if fa.Field != inShutdown || fa.Kind != core.AccAtomic || fa.Callee == nil || fa.Callee.Name() != "Store" {
+		if fa.Field != inShutdown || fa.Kind != core.AccAtomic || fa.Callee == nil || ssaName(fa.Callee) != "Store" {
 			continue
 		}
 		site := core.SSAName(fa.Fn)
